@@ -36,6 +36,13 @@ class Obs : public SQuIDS {
   std::vector<SU_vector> H;
   Obs(unsigned nx, unsigned d, double ti) : SQuIDS(nx, d, 2, 0, ti) {}
   SU_vector H0(double x, unsigned int irho) const override { return (4.0 * x) * H[irho]; }
+  double perturb = 0;      // mode 2 only: a strong interaction while the refused Evolve runs
+  SU_vector HI(unsigned int ix, unsigned int irho, double t) const override {
+    SU_vector h(nsun);
+    if (perturb != 0) for (unsigned k = 0; k < nsun * nsun; k++) h[k] = perturb * (1 + (k + ix + irho) % 3) * std::cos(3 * t + k);
+    return h;
+  }
+  void RestoreClock(double t_) { Set_t(t_); }
   void SetRho(unsigned ix, unsigned irho, const std::vector<double>& c) {
     for (unsigned k = 0; k < c.size(); k++) state[ix].rho[irho][k] = c[k];
   }
@@ -62,6 +69,26 @@ static std::unique_ptr<Obs> build(const Setup& s, const std::vector<long>& hist,
   for (int ix = 0; ix < s.nx; ix++)
     for (int ir = 0; ir < 2; ir++) o->SetRho(ix, ir, comps_from_matrix(s.rho[ix][ir]));
   if (mode == 1) o->Set_CoherentRhoTerms(true);      // default HI = 0: the solver runs, the state is constant
+  if (mode == 2) {
+    // An Evolve that GSL refuses (multistep method, error control pushes the step below h_min): Evolve reports the
+    // error and the in-step view of the state is left wherever the stepper last evaluated.  The stored state and the
+    // clock are then put back to the specification's values through the same members a derived class uses, and the
+    // history continues with all numerical terms off.  Queries are functions of the stored state, the clock, the grid
+    // and H0 only: they must not see the stale in-step view.
+    o->perturb = 40.0;
+    o->Set_CoherentRhoTerms(true);
+    o->Set_GSL_step(gsl_odeiv2_step_msadams);
+    o->Set_rel_error(1e-13); o->Set_abs_error(1e-13);
+    o->Set_h(0.25); o->Set_h_min(0.2);
+    bool refused = false;
+    try { o->Evolve(3.0); } catch (std::exception&) { refused = true; }
+    if (!refused) return nullptr;
+    o->perturb = 0;
+    o->Set_CoherentRhoTerms(false);
+    o->RestoreClock(ti);
+    for (int ix = 0; ix < s.nx; ix++)
+      for (int ir = 0; ir < 2; ir++) o->SetRho(ix, ir, comps_from_matrix(s.rho[ix][ir]));
+  }
   for (long k : hist) o->Evolve(k * M_PI / 4);
   return o;
 }
@@ -92,7 +119,7 @@ int main(int argc, char** argv) {
   std::string tag;
   long nq = 0;
   long last_sid = -1; std::vector<long> last_hist;
-  std::unique_ptr<Obs> objs[2];
+  std::unique_ptr<Obs> objs[3]; long nrefused = 0, nmode2 = 0;
   while (std::cin >> tag) {
     if (tag == "S") {
       long sid; Setup s;
@@ -129,10 +156,11 @@ int main(int argc, char** argv) {
           objs[0] = build(s, hist, 0);
           objs[1].reset();
           if (allpos) objs[1] = build(s, hist, 1);
+          objs[2] = build(s, hist, 2); nmode2++; if (objs[2]) nrefused++;
         } catch (std::exception& e) { cur_mode = -1; mismatch("build", 0, 0, std::string("threw:") + e.what(), 1, 0); last_sid = -1; continue; }
         last_sid = sid; last_hist = hist;
       }
-      for (int mode = 0; mode < 2; mode++) {
+      for (int mode = 0; mode < 3; mode++) {
         if (!objs[mode]) continue;
         cur_mode = mode;
         const Obs& o = *objs[mode];
@@ -181,6 +209,7 @@ int main(int argc, char** argv) {
       }
     } else { printf("BADINPUT %s\n", tag.c_str()); return 2; }
   }
+  printf("REFUSED %ld %ld\n", nrefused, nmode2);
   printf("DONE %ld %ld %ld %.3g\n", nq, ncmp, nmis, maxrel);
   return 0;
 }
